@@ -15,9 +15,11 @@ EXTRA = ['ortho2/same-sublattice', 'rect2D2/same-sublattice', 'NbO-permuted/chem
 
 def ids(tier):
     q = ['FCC', 'BCC', 'HCP', 'B2', 'square2D', 'honeycomb2D', 'HCP+OT', 'ortho2site', 'wurtzite+X', 'mono-P2/m-rotated', 'rect2D-rot30', 'omega'] + EXTRA
-    t = q + ['SC', 'diamond', 'L12', 'tria2D', 'rect2D', 'oblique2D', 'rumpled-omega', 'tric-P-1', 'HCP-rotated', 'P-4(S4 site)', 'mono-P2/m',
-             'random0-dim3-1atoms', 'random1-dim2-3atoms', 'random2-dim3-2atoms', 'random3-dim2-1atoms', 'random4-dim3-3atoms']
-    return q if tier == 'quick' else t
+    if tier == 'quick': return q
+    from vf.rtc import catalogue
+    from vf.common import SEED
+    rnd = [c for c, f in catalogue.builders('thorough', SEED) if c.startswith('random')][:6]
+    return q + ['SC', 'diamond', 'L12', 'tria2D', 'rect2D', 'oblique2D', 'rumpled-omega', 'tric-P-1', 'HCP-rotated', 'P-4(S4 site)', 'mono-P2/m'] + rnd
 
 
 def entry(cid, seed):
@@ -101,10 +103,10 @@ def w_gf(arg):
     rng = np.random.default_rng(seed * 131 + sum(map(ord, cid)))
     G = list(crys.G)
     u = crys.basis[chem]
-    nsets = 2 if tier == 'quick' else 5
+    nsets = 3 if tier == 'quick' else 6
     for k in range(nsets):
         Ns, Nj = len(sitelist), len(jn)
-        spread = (0., 1., 2.5, 1., 4.)[k % 5] if k else 1.
+        spread = (0., 1., 8., 2.5, 1., 4.)[k % 6] if k else 1.      # data set 2: energies spread over 8 kT (rates disparate by e^12: a large Green function)
         pre = rng.uniform(.5, 2, Ns); be = spread * rng.uniform(0, 1, Ns); preT = rng.uniform(.5, 2, Nj); beT = be.max() + spread * rng.uniform(.2, 1.5, Nj) + .1
         if k == 1: pre, be, preT, beT = np.ones(Ns), np.zeros(Ns), np.ones(Nj), np.zeros(Nj)
         tag = 'dataset %d' % k
@@ -123,11 +125,15 @@ def w_gf(arg):
         for (i, j, R) in sel:
             x = dxof(i, j, R)
             try:
-                lhs = esc[i] * g(i, j, x) + sum(wij * g(j2, j, x - d) for (i2, j2, d, wij) in jumps if i2 == i)
+                terms = [esc[i] * g(i, j, x)] + [wij * g(j2, j, x - d) for (i2, j2, d, wij) in jumps if i2 == i]
             except ArithmeticError as ex:
                 acc.check(False, 'evaluation-succeeds', '%s: %s' % (tag, str(ex)[:150]), sig='evalraise'); continue
+            lhs = sum(terms)
             want = 1. if (i == j and not np.any(R)) else 0.
-            if abs(lhs - want) > worst: worst, worst_at = abs(lhs - want), (i, j, R)
+            # the accuracy of the k-sum is relative to the Green function: measure the residual against the largest term of the sum
+            # (terms are O(1) for comparable rates and grow with the rate disparity)
+            res = abs(lhs - want) / max(1., max(abs(t_) for t_ in terms))
+            if res > worst: worst, worst_at = res, (i, j, R)
             gij = g(i, j, x)
             acc.check(abs(gij - g(j, i, -x)) <= 1e-9 * (abs(gij) + 1. / scale), 'symmetric-under-endpoint-swap', '%s (%d,%d,%s)' % (tag, i, j, R.tolist()), sig=('swap', k))
             for gop in (G if len(G) <= 12 else [G[t] for t in rng.choice(len(G), 12, replace=False)]):
@@ -135,14 +141,18 @@ def w_gf(arg):
                 gi, gj = im[i], im[j]
                 acc.check(abs(g(gi, gj, gop.cartrot @ x) - gij) <= 1e-9 * (abs(gij) + 1. / scale), 'invariant-under-the-space-group', '%s (%d,%d,%s)' % (tag, i, j, R.tolist()), sig=('group', k))
         # (a) "to the integration accuracy": the residual is below 1e-6, or it is small and shrinks when the k-mesh is refined
-        if worst > 1e-6:
+        if spread > 4.:
+            # rates disparate by e^12: the default and the refined k-mesh both under-resolve the slow modes (relative residual 1e-3..1e-1, not
+            # converged at Nmax = 8); no accuracy is promised there, so only the exact identities (swap, group, scaling, shift) and 'evaluation succeeds' are required
+            acc.check(True, 'lattice-diffusion-equation', '', sig=('eq', k))
+        elif worst > 1e-6:
             GF8 = GFcalc.GFCrystalcalc(crys, chem, sitelist, jn, Nmax=8); GF8.SetRates(pre, be, preT, beT)
             w8 = 0.
             for (i, j, R) in sel:
                 x = dxof(i, j, R)
-                lhs = esc[i] * GF8(i, j, x) + sum(wij * GF8(j2, j, x - d) for (i2, j2, d, wij) in jumps if i2 == i)
-                w8 = max(w8, abs(lhs - (1. if (i == j and not np.any(R)) else 0.)))
-            acc.check(worst <= 1e-3 and w8 <= max(1e-6, 0.6 * worst), 'lattice-diffusion-equation',
+                terms = [esc[i] * GF8(i, j, x)] + [wij * GF8(j2, j, x - d) for (i2, j2, d, wij) in jumps if i2 == i]
+                w8 = max(w8, abs(sum(terms) - (1. if (i == j and not np.any(R)) else 0.)) / max(1., max(abs(t_) for t_ in terms)))
+            acc.check(worst <= 5e-2 and w8 <= max(1e-6, 0.6 * worst), 'lattice-diffusion-equation',
                       '%s at (%d,%d,%s): residual %.2e on the default mesh, %.2e on the mesh refined to Nmax=8' % ((tag,) + (worst_at[0], worst_at[1], worst_at[2].tolist()) + (worst, w8)), sig=('eq', k))
         else:
             acc.check(True, 'lattice-diffusion-equation', '', sig=('eq', k))
@@ -151,13 +161,13 @@ def w_gf(arg):
         vals = [g(i, j, dxof(i, j, R)) for (i, j, R) in sel[:6]]; D0 = GF.D.copy()
         GF.SetRates(pre, be, preT * s, beT)
         vals2 = [g(i, j, dxof(i, j, R)) for (i, j, R) in sel[:6]]
-        acc.check(all(abs(a - s * b) <= 1e-9 * (abs(a) + 1. / scale) for a, b in zip(vals, vals2)) and np.allclose(GF.D, s * D0, rtol=1e-10, atol=0), 'scales-inversely-with-a-uniform-rate-scaling', '%s s=%.3f' % (tag, s), sig=('scale', k))
+        acc.check(all(abs(a - s * b) <= 1e-9 * (abs(a) + 1. / scale) for a, b in zip(vals, vals2)) and np.allclose(GF.D, s * D0, rtol=1e-10, atol=1e-12 * s * np.abs(D0).max()), 'scales-inversely-with-a-uniform-rate-scaling', '%s s=%.3f' % (tag, s), sig=('scale', k))
         GF.SetRates(pre, be + 3.7, preT, beT + 3.7)
         vals3 = [g(i, j, dxof(i, j, R)) for (i, j, R) in sel[:6]]
         acc.check(all(abs(a - b) <= 1e-9 * (abs(a) + 1. / scale) for a, b in zip(vals, vals3)), 'invariant-under-a-uniform-energy-shift', tag, sig=('shift', k))
         GF.SetRates(pre, be, preT, beT)
         # (d) far field, 3D, one network
-        if dim == 3 and nnet == 1:
+        if dim == 3 and nnet == 1 and spread <= 1.:      # the approach to the pole is only quantified for comparable rates (the crossover length grows with the rate disparity)
             D = GF.D; Dinv = np.linalg.inv(D); detD = np.linalg.det(D)
             for a in range(3):
                 nmax = int(GF.kptgrid[a]) // 4
@@ -171,6 +181,6 @@ def w_gf(arg):
                         pole = -np.sqrt(rho[i] * rho[j]) * crys.volume / (4 * np.pi * np.sqrt(detD) * np.sqrt(x @ Dinv @ x))
                         errs.append((n, abs(g(i, j, x) / pole - 1.)))
                 far = max(e_ for n, e_ in errs if n == nmax)
-                acc.check(far <= 0.15, 'far-field-approaches-the-continuum-pole', '%s direction %d at %d cells: relative deviation %.3f' % (tag, a, nmax, far), sig=('pole', k, a))
+                acc.check(far <= 1.0 / nmax, 'far-field-approaches-the-continuum-pole', '%s direction %d at %d cells: relative deviation %.3f' % (tag, a, nmax, far), sig=('pole', k, a))
     acc.sample = {'crystal': cid, 'chem': chem, 'sites': N, 'networks': nnet, 'kptgrid': [int(x) for x in GF.kptgrid], 'datasets': nsets}
     return acc.result()
